@@ -317,16 +317,17 @@ def judge_c01(d):
 
 
 PROPS["C01"] = {
-    "lean_modules": ["P2.Props.C01", "P2.Props.C01b", "P2.Props.C03"],
+    "lean_modules": ["P2.Props.C01", "P2.Props.C01b", "P2.Props.C01c", "P2.Props.C03"],
     "audit_module": "P2.Audit.C01",
+    "extra_audit_modules": ["P2.Audit.C01c"],
     "harness_prop": "c01",
     "profile": "release",
     "judge": judge_c01,
     "trusted_base": PLONK_TB + [
         "the gadget compiler (CircuitBuilder gadgets -> gates and copy constraints) is NOT modelled: its correctness is tied only by the end-to-end correspondence (public inputs carried by real proofs = evalProg; Lean verifier accepts) — partial",
     ],
-    "level_text": "Lean 4: denotational semantics evalProg of a circuit-program language over the builder's gadgets, the complete PLONK verifier model; every generated satisfiable program is built, proved, verified (plain and compressed) by the real code under generated admissible configurations, its public inputs must equal evalProg computed in Lean, and the Lean verifier must accept the dumped proof",
-    "level_note": "Admissible := check_config passes and build returns; configurations the builder refuses loudly are counted only. F-C01-1 (honest proof rejected under Fixed arities exceeding the degree) found with this check and repaired in /repo. F-C01-2 (zk with Fixed/small MinSize schedules never fits blinding) is avoided by the generator and recorded in DESIGN.md.",
+    "level_text": "Lean 4: denotational semantics evalProg of a circuit-program language over the builder's gadgets, the complete PLONK verifier model; every generated satisfiable program is built, proved, verified (plain and compressed) by the real code under generated admissible configurations, its public inputs must equal evalProg computed in Lean, and the Lean verifier must accept the dumped proof; C01c: the exponentiation gadgets (exp_from_bits with its chunk loop for exponents wider than one ExponentiationGate, the arithmetic-gate path of exp_from_bits_const_base, exp_u64) are modelled as algorithms and proved equal to base^exponent over any commutative ring for every bit list and gate width (the gate's own pinning is C07)",
+    "level_note": "Admissible := check_config passes and build returns; configurations the builder refuses loudly are counted only. F-C01-1 (honest proof rejected under Fixed arities exceeding the degree) found with this check and repaired in /repo. F-C01-3 (32-bit shift in exp_from_bits_const_base) and F-C01-4 (exponent bits beyond one gate landing on the output wire; 64-bit shifts) were found by audit agents, reproduced with the wide/narrow-row gadget cases of this check and repaired in /repo; C01c states what the repaired algorithms compute. F-C01-2 (zk with Fixed/small MinSize schedules never fits blinding) is avoided by the generator and recorded in DESIGN.md.",
     "assumptions": ["negligible-probability prover failures (zeta in H, PoW search exhausted) are not expected within the explored cases"],
     "rule": "generated programs (6-300 ops; arithmetic, boolean, select, split/range-check, random access, exponentiation, hashing, lookups with 1-3 tables of 1-60 entries, extension arithmetic) x configs (zk, narrow/wide rows, Fixed/Constant/MinSize, rate 3-4, cap 0-4, 1-3 challenges, standard and cheap strength); distinct = distinct request lines",
 }
